@@ -29,6 +29,7 @@ type ParserData struct {
 	// 主代码段每条指令写入时解析器所处的文本位置，用于清除回溯后遗留的指令
 	getOffset func() int
 	codePos   []int
+	jmpPos    []int // jmpStack 各项入栈时解析器所处的文本位置
 	codeStack []struct {
 		code    []ByteCode
 		index   int
@@ -234,7 +235,27 @@ func (e *ParserData) NamePop() string {
 }
 
 func (e *ParserData) OffsetPush() {
+	e.dropStaleJmp()
 	e.jmpStack = append(e.jmpStack, IntType(e.codeIndex)-1)
+	pos := 0
+	if e.getOffset != nil {
+		pos = e.getOffset()
+	}
+	e.jmpPos = append(e.jmpPos, pos)
+}
+
+// dropStaleJmp 弹出被放弃的分支遗留在 jmpStack 上的项。
+// 在被接受的解析路径上，文本位置只增不减；因此入栈位置大于当前位置的项只可能来自已回溯的分支
+// (例如 `a ? b : c || ` 中 || 的右侧解析失败后留下的 je.dup)，继续使用会回填到错误的跳转指令上。
+func (e *ParserData) dropStaleJmp() {
+	if e.getOffset == nil {
+		return
+	}
+	cur := e.getOffset()
+	for n := len(e.jmpStack); n > 0 && len(e.jmpPos) == n && e.jmpPos[n-1] > cur; n = len(e.jmpStack) {
+		e.jmpStack = e.jmpStack[:n-1]
+		e.jmpPos = e.jmpPos[:n-1]
+	}
 }
 
 func (p *ParserData) ContinuePush() error {
@@ -252,6 +273,7 @@ func (p *ParserData) ContinuePush() error {
 }
 
 func (p *ParserData) ContinueSet(offsetB int) {
+	p.dropStaleJmp()
 	if p.continueStack != nil {
 		info := p.loopInfo[len(p.loopInfo)-1]
 		for _, codeIndex := range p.continueStack[info.continueIndex:] {
@@ -287,19 +309,28 @@ func (p *ParserData) BreakPush() error {
 }
 
 func (e *ParserData) OffsetPopAndSet() {
+	e.dropStaleJmp()
 	last := len(e.jmpStack) - 1
 	codeIndex := e.jmpStack[last]
 	e.jmpStack = e.jmpStack[:last]
+	if len(e.jmpPos) > last {
+		e.jmpPos = e.jmpPos[:last]
+	}
 	e.code[codeIndex].Value = IntType(IntType(e.codeIndex) - codeIndex - 1)
 	// fmt.Println("XXXX", e.Code[codeIndex], "|", e.Top, codeIndex)
 }
 
 func (e *ParserData) OffsetPopN(num int) {
+	e.dropStaleJmp()
 	last := len(e.jmpStack) - num
 	e.jmpStack = e.jmpStack[:last]
+	if len(e.jmpPos) > last {
+		e.jmpPos = e.jmpPos[:last]
+	}
 }
 
 func (e *ParserData) OffsetJmpSetX(offsetA int, offsetB int, rev bool) {
+	e.dropStaleJmp()
 	lastA := len(e.jmpStack) - 1 - offsetA
 	lastB := len(e.jmpStack) - 1 - offsetB
 
